@@ -19,21 +19,21 @@ func TestC11(t *testing.T) {
 		ID: "C11",
 		Gen: func(t *rapid.T) lab.StoreCase {
 			c := lab.StoreCase{}
-			n := rapid.IntRange(1, 5).Draw(t, "nPlans")
+			n := lab.Rng(t, 1, 5, "nPlans")
 			for i := 0; i < n; i++ {
 				one := pf.Gen(t)
 				c.Sc.Plans = append(c.Sc.Plans, one.Plans[0])
 				sp := lab.StorePlan{
-					Class:  rapid.SampledFrom([]int{lab.ClassNotStarted, lab.ClassTerminal, lab.ClassRunning, lab.ClassRunning, lab.ClassRunning}).Draw(t, "class"),
-					Prefix: rapid.IntRange(0, 1000).Draw(t, "prefix"),
-					Age:    rapid.IntRange(0, 5).Draw(t, "age"),
+					Class:  []int{lab.ClassRunning, lab.ClassRunning, lab.ClassRunning, lab.ClassNotStarted, lab.ClassTerminal}[lab.Rng(t, 0, 4, "class")],
+					Prefix: lab.Rng(t, 0, 1000, "prefix"),
+					Age:    lab.Rng(t, 0, 5, "age"),
 				}
 				c.Plans = append(c.Plans, sp)
 			}
 			constantScripts(&c.Sc)
-			c.NoRecovery = rapid.IntRange(0, 5).Draw(t, "noRecovery") == 0
-			if rapid.IntRange(0, 3).Draw(t, "fault") == 0 {
-				c.FaultAt = rapid.IntRange(1, 12).Draw(t, "faultAt")
+			c.NoRecovery = lab.Pct(t, 17, "noRecovery")
+			if lab.Pct(t, 25, "fault") {
+				c.FaultAt = lab.Rng(t, 1, 12, "faultAt")
 			}
 			return c
 		},
